@@ -45,8 +45,13 @@ def check(run, repo, world):
     run.floor("R-RDISC response-use sites (write_raw)", n_use, 2)
 
     cet = cond_edge_transfer()
+    # the loop over cls.locations that refuses a value with a location
+    # that cannot be written (other loops over the locations, e.g. one that
+    # only computes the unlock flag, are not it)
     wloops = [n for n in cfg.reachable if n.kind == "for" and unparse(
-        n.ast.iter) == "cls.locations"]
+        n.ast.iter) == "cls.locations" and any(
+            isinstance(x, ast.Raise) and "MemoryValueNotWriteable" in
+            unparse(x, 300) for x in ast.walk(n.ast))]
     wloop_ids = {n.id for n in wloops}
 
     def transfer(node, st):
